@@ -177,6 +177,19 @@ Definition good_tokb (s : str) : bool := match s with [] => false | _ :: _ => ws
 (* ---- printable programs (C11): the decidable class for which print-then-parse
    is claimed.  An atom is printable when its printed text is one token and the
    lexical rules read that token back as the same atom. ---- *)
+(* every atom of a tree satisfies P *)
+Section AtomsAll.
+  Variable P : item -> bool.
+  Fixpoint atoms_all (t : item) : bool :=
+    match t with
+    | IList l => (fix go (l : list item) : bool :=
+                    match l with [] => true | x :: r => atoms_all x && go r end) l
+    | _ => P t
+    end.
+  Lemma atoms_all_list l : atoms_all (IList l) = forallb atoms_all l.
+  Proof. reflexivity. Qed.
+End AtomsAll.
+
 Section Printable.
   Context {FO : FloatOps}.
   Variable names : list str.
@@ -199,20 +212,6 @@ Section Printable.
     | _ => false
     end.
 
-  Fixpoint printable (t : item) : bool :=
-    match t with
-    | IList l => (fix go (l : list item) : bool :=
-                    match l with [] => true | x :: r => printable x && go r end) l
-    | _ => rt_atom t
-    end.
-  Fixpoint printable_f (t : item) : bool :=
-    match t with
-    | IList l => (fix go (l : list item) : bool :=
-                    match l with [] => true | x :: r => printable_f x && go r end) l
-    | _ => rt_atom t || rt_float t
-    end.
-  Lemma printable_list l : printable (IList l) = forallb printable l.
-  Proof. reflexivity. Qed.
-  Lemma printable_f_list l : printable_f (IList l) = forallb printable_f l.
-  Proof. reflexivity. Qed.
+  Definition printable : item -> bool := atoms_all rt_atom.
+  Definition printable_f : item -> bool := atoms_all (fun a => rt_atom a || rt_float a).
 End Printable.
